@@ -1,6 +1,7 @@
 """C02 - measurement follows the Born rule and collapses to the normalised projection."""
 import time
 
+import qrt_common
 import qsim_common
 import vlib
 
@@ -15,9 +16,17 @@ def run(tier, seed):
     for i, v in enumerate([v for v in rep["violations"] if v["property"] == PID][:5]):
         out.violation(v["what"], {"kind": "qsim-edge", "spec_state": v["state"], "action": v["action"],
                                   "what": v["what"]}, "edge%d" % i)
+    # program level: returned bit / stored value / tracked outcome / collapsed state agree (QRuntime behaviours)
+    stats, by_prop, sample = qrt_common.run(tier, seed)
+    pv = by_prop.get(PID, [])
+    for v in pv[:5]:
+        out.violation(v["what"], v, "beh%d" % v["behaviour"])
+    nviol += len(pv)
     cov = {"states": meta["distinct"], "transitions": meta["generated"],
            "traces_validated_against_impl": rep["per_action"].get("measure", 0),
            "measure_calls_on_impl": rep["measure_draws"],
+           "programs_run": stats["behaviours"], "program_stats": {k: stats[k] for k in ("halted", "stmt_kinds", "paths")},
+           "program_sample": sample,
            "samples": [s for s in rep["samples"]][:3] + [{"draw_grid": "(2j+1)/32 for j=0..15, 1e-9, 1-1e-9"}],
            "nodes_replayed": rep["nodes"], "unreached_nodes": rep["unreached"], "tlc": meta, "exhaustive": True,
            "rule": "for every reachable spec state (<=3 qubits, stabiliser closure incl. earlier measurements and "
